@@ -54,6 +54,10 @@ def run(ctx):
     progs = fixed + [_rand_prog(rng) for _ in range(24 if thorough else 4)]
     n = 12 if thorough else 3
     tr, tot = pc.run_programs(ctx, exe, progs, n, ctx.seed, WHAT, 'throwing pipelines + follow-up')
+    # items orphaned in a local queue after the caller has passed that stage's wait (they are destroyed only by the
+    # scheduler's destructor): needs a throw while later items are still upstream; ~20 % of uniform schedules of this program
+    late = [pc.cfg(2, [2, 2, 1], 3, 6, thr=[(2, 1), (2, 2)]) + '|' + pc.cfg(1, [1, 1], 3, 2)]
+    pc.run_programs(ctx, exe, late, 60 if thorough else 14, ctx.seed + 3, WHAT, 'queue leftovers at teardown', pct=0)
     if thorough:
         san = pc.build(ctx, sanitize=True)
         pc.run_programs(ctx, san, progs[:16], 3, ctx.seed + 2, WHAT, 'sanitised build (LeakSanitizer, AddressSanitizer)',
